@@ -91,7 +91,7 @@ fn soup_case(rng: &mut Rng) -> Option<(Case, &'static str)> {
     }
     let mut c = Case::new(kind, prog, origin);
     if kind != Kind::NoData {
-        let len = *rng.pick(&[0usize, 1, 8, 16, 64]);
+        let len = *rng.pick(&[0usize, 1, 8, 16, 64, 7, 9, 17, 33, 63]); // (odd lengths: end-aligned packets then start at odd addresses)
         c.pkt = rng.bytes(len);
     }
     if kind == Kind::Mbuff {
